@@ -9413,34 +9413,19 @@ const XMLCh* TraverseSchema::getElementAttValue(const DOMElement* const elem,
     const XMLCh* attValue = attNode->getValue();
 
     if (attType < DatatypeValidator::ID) {
-        static bool bInitialized = false;
-        static short wsFacets[DatatypeValidator::ID] = {0};
-        if(!bInitialized)
-        {
-            bInitialized=true;
-            DVHashTable* registry = DatatypeValidatorFactory::getBuiltInRegistry();
-            wsFacets[DatatypeValidator::String]      = registry->get(SchemaSymbols::fgDT_STRING)->getWSFacet();
-            wsFacets[DatatypeValidator::AnyURI]      = registry->get(SchemaSymbols::fgDT_ANYURI)->getWSFacet();
-            wsFacets[DatatypeValidator::QName]       = registry->get(SchemaSymbols::fgDT_QNAME)->getWSFacet();
-            wsFacets[DatatypeValidator::Name]        = registry->get(SchemaSymbols::fgDT_NAME)->getWSFacet();
-            wsFacets[DatatypeValidator::NCName]      = registry->get(SchemaSymbols::fgDT_NCNAME)->getWSFacet();
-            wsFacets[DatatypeValidator::Boolean]     = registry->get(SchemaSymbols::fgDT_BOOLEAN)->getWSFacet();
-            wsFacets[DatatypeValidator::Float]       = registry->get(SchemaSymbols::fgDT_FLOAT)->getWSFacet();
-            wsFacets[DatatypeValidator::Double]      = registry->get(SchemaSymbols::fgDT_DOUBLE)->getWSFacet();
-            wsFacets[DatatypeValidator::Decimal]     = registry->get(SchemaSymbols::fgDT_DECIMAL)->getWSFacet();
-            wsFacets[DatatypeValidator::HexBinary]   = registry->get(SchemaSymbols::fgDT_HEXBINARY)->getWSFacet();
-            wsFacets[DatatypeValidator::Base64Binary]= registry->get(SchemaSymbols::fgDT_BASE64BINARY)->getWSFacet();
-            wsFacets[DatatypeValidator::Duration]    = registry->get(SchemaSymbols::fgDT_DURATION)->getWSFacet();
-            wsFacets[DatatypeValidator::DateTime]    = registry->get(SchemaSymbols::fgDT_DATETIME)->getWSFacet();
-            wsFacets[DatatypeValidator::Date]        = registry->get(SchemaSymbols::fgDT_DATE)->getWSFacet();
-            wsFacets[DatatypeValidator::Time]        = registry->get(SchemaSymbols::fgDT_TIME)->getWSFacet();
-            wsFacets[DatatypeValidator::MonthDay]    = registry->get(SchemaSymbols::fgDT_MONTHDAY)->getWSFacet();
-            wsFacets[DatatypeValidator::YearMonth]   = registry->get(SchemaSymbols::fgDT_YEARMONTH)->getWSFacet();
-            wsFacets[DatatypeValidator::Year]        = registry->get(SchemaSymbols::fgDT_YEAR)->getWSFacet();
-            wsFacets[DatatypeValidator::Month]       = registry->get(SchemaSymbols::fgDT_MONTH)->getWSFacet();
-            wsFacets[DatatypeValidator::Day]         = registry->get(SchemaSymbols::fgDT_DAY)->getWSFacet();
-        }
-        short wsFacet = wsFacets[attType];
+        // Names of the built-in types, indexed by DatatypeValidator::ValidatorType (< ID).  A constant table:
+        // the former lazily filled function-local statics (flag stored before the data) were a data race
+        // between threads loading schemas with their own parsers.
+        static const XMLCh* const typeNames[DatatypeValidator::ID] = {
+            SchemaSymbols::fgDT_STRING, SchemaSymbols::fgDT_ANYURI, SchemaSymbols::fgDT_QNAME,
+            SchemaSymbols::fgDT_NAME, SchemaSymbols::fgDT_NCNAME, SchemaSymbols::fgDT_BOOLEAN,
+            SchemaSymbols::fgDT_FLOAT, SchemaSymbols::fgDT_DOUBLE, SchemaSymbols::fgDT_DECIMAL,
+            SchemaSymbols::fgDT_HEXBINARY, SchemaSymbols::fgDT_BASE64BINARY, SchemaSymbols::fgDT_DURATION,
+            SchemaSymbols::fgDT_DATETIME, SchemaSymbols::fgDT_DATE, SchemaSymbols::fgDT_TIME,
+            SchemaSymbols::fgDT_MONTHDAY, SchemaSymbols::fgDT_YEARMONTH, SchemaSymbols::fgDT_YEAR,
+            SchemaSymbols::fgDT_MONTH, SchemaSymbols::fgDT_DAY
+        };
+        short wsFacet = DatatypeValidatorFactory::getBuiltInRegistry()->get(typeNames[attType])->getWSFacet();
         if((wsFacet == DatatypeValidator::REPLACE && !XMLString::isWSReplaced(attValue)) ||
            (wsFacet == DatatypeValidator::COLLAPSE && !XMLString::isWSCollapsed(attValue)))
         {
